@@ -150,5 +150,27 @@ static void body_decomp(void) {
     if (vx_want_sample()) vx_sample("rec#%d %s: capacities 0..%zu, inspectors, in-place", idx, r->name, r->clen + 8);
 }
 
-static void body(void) { if (!strcmp(g_mode, "comp")) body_comp(); else if (!strcmp(g_mode, "bound")) body_bound(); else body_decomp(); }
+/* inputs made only of a small alphabet of low byte values: Huffman table descriptions of every size and kind (raw 4-bit weights,
+ * FSE-compressed weights), full capacity sweep */
+static void body_alpha(void) {
+    static const unsigned ALPHA[] = {2, 3, 4, 6, 8, 11, 12, 16, 17, 24, 32, 64, 128, 255}; static const size_t SZ[] = {63, 64, 65, 70, 100, 200, 400, 1500};
+    static const int LV[] = {1, 3, 6, 19}; int ai = vx_choose(14), zi = vx_choose(8), li = vx_choose(4), skew = vx_choose(2), entry = vx_choose(2);
+    size_t n = SZ[zi]; uint32_t s = 17 + (uint32_t)ai;
+    for (size_t i = 0; i < n; i++) { s = s * 1103515245u + 12345u; unsigned r = (s >> 16) % ALPHA[ai]; if (skew && (s >> 28) < 9) r = 0; g_src[i] = (u8)r; }
+    vx_label("alpha bytes in [0,%u) n=%zu level=%d skew=%d entry=%d", ALPHA[ai], n, LV[li], skew, entry);
+    pvec_t p = pvec_base(0); p.strategy = 0; p.windowLog = 0; p.level = LV[li];
+    u8* src = (u8*)malloc(n); memcpy(src, g_src, n);
+    size_t bound = ZSTD_compressBound(n); long nsucc = 0; size_t minOK = (size_t)-1;
+    for (size_t cap = 0; cap <= bound + 4; cap++) {
+        u8* dst = (u8*)malloc(cap ? cap : 1);
+        size_t r = compress_with(&p, entry, dst, cap, src, n);
+        if (ZSTD_isError(r)) { if (cap >= bound) vx_fail("capacity %zu >= bound %zu fails: %s", cap, bound, ZSTD_getErrorName(r)); else if (ZSTD_getErrorCode(r) != ZSTD_error_dstSize_tooSmall) vx_fail("capacity %zu: error other than dstSize_tooSmall: %s", cap, ZSTD_getErrorName(r)); }
+        else { nsucc++; if (cap < minOK) minOK = cap; if (r > cap) vx_fail("returned %zu > capacity %zu", r, cap); else if (!decodes_to(&p, dst, r, src, n)) vx_fail("capacity %zu: frame does not round trip", cap); }
+        free(dst); if (vx_failed) break;
+    }
+    free(src);
+    vx_obs_u64(minOK * 131 + n); if (nsucc) vx_nontrivial(); vx_stat_add("capacities_tried", (long)bound + 5);
+}
+
+static void body(void) { if (!strcmp(g_mode, "alpha")) { body_alpha(); return; } if (!strcmp(g_mode, "comp")) body_comp(); else if (!strcmp(g_mode, "bound")) body_bound(); else body_decomp(); }
 int main(int argc, char** argv) { return vx_main(argc, argv, init, body); }
